@@ -176,7 +176,7 @@ func genMessage(r *rand.Rand, from, to string, maxBody int) *fbb.Message {
 	if r.Intn(4) == 0 {
 		m.AddCc([]string{"LA1B", "foo@example.com", "N0CALL@winlink.org"}[r.Intn(3)])
 	}
-	subjects := []string{"Hello", "Test message", "//WL2K Z/ flash traffic", "//WL2K O/ immediate", "//WL2K P/ priority", "Blåbærsyltetøy på brødskiva", "Re: =?x", "a", strings.Repeat("long subject ", 8), "Fuel at 50% of capacity", "100%d %s%v %!x %%", "%"}
+	subjects := []string{"Hello", "Test message", "//WL2K Z/ flash traffic", "//WL2K O/ immediate", "//WL2K P/ priority", "Blåbærsyltetøy på brødskiva", "Re: =?x", "a", strings.Repeat("long subject ", 8), "Fuel at 50% of capacity", "100%d %s%v %!x %%", "%", "//WL2K Z/ Brann på øya", "//WL2K P/ æ", "//WL2K O/ 50% blåbær"}
 	subj := subjects[r.Intn(len(subjects))]
 	if r.Intn(8) == 0 {
 		// the longest non-ASCII subjects Message.Validate admits (the Subject header may have 128 bytes)
@@ -347,6 +347,10 @@ func genScenario(c *Ctx, maxMsgs, maxBody int) (*sessSpec, *sessSpec) {
 			m = sa
 		}
 		m.motd = []string{"Welcome to the test node", "*** MTD Stats Total connects = 2580"}[:1+r.Intn(2)]
+		if r.Intn(3) == 0 {
+			// brackets and a dash INSIDE a line do not make it a SID line
+			m.motd = append(m.motd, "Sysop on duty [Mon-Fri] 0900-1700 UTC")
+		}
 	}
 	sa.batched, sb.batched = r.Intn(3) == 0, r.Intn(3) == 0
 	sa.ihash, sb.ihash = true, true
@@ -365,6 +369,15 @@ func genScenario(c *Ctx, maxMsgs, maxBody int) (*sessSpec, *sessSpec) {
 				if tw := swapCase(prev); tw != prev {
 					m.Header.Set("Mid", tw)
 				}
+			}
+			if r.Intn(15) == 0 {
+				// a MID with non-ASCII letters (Validate admits it): the block checksum of the proposal lines is summed
+				// the same way on both sides of this library, whatever that way is
+				tail := genMid(r)
+				if len(tail) > 4 {
+					tail = tail[:1+r.Intn(4)]
+				}
+				m.Header.Set("Mid", []string{"ÆØÅ", "é", "Жук"}[r.Intn(3)]+tail)
 			}
 			if seen[m.MID()] {
 				continue
@@ -407,4 +420,16 @@ func scenarioReplay(sa, sb *sessSpec, extra map[string]interface{}) map[string]i
 		rep[k] = v
 	}
 	return rep
+}
+
+// exactMultipleMessage searches for a valid message whose compressed size is an exact multiple of the data block
+// size (the boundary of the chunk loop in writeCompressed: the last block is full, nothing is left over).
+func exactMultipleMessage(r *rand.Rand, from, to string) *outMsg {
+	for tries := 0; tries < 6000; tries++ {
+		o := newOutMsg(genMessage(r, from, to, 40+r.Intn(400)))
+		if n := len(fbbCompressed(o)); n%fbb.MaxMsgLength == 0 {
+			return o
+		}
+	}
+	return nil
 }
